@@ -21,6 +21,8 @@ enum Prim {
     Semi { lb: i64, v: i64 },
     Unconstrained { v: i64 },
     NormallySmall { n: u64 },
+    /// a normally small LENGTH (11.9.3.4); `n` is the length itself (>= 1), the subject's API takes n - 1
+    NormallySmallLength { n: u64 },
     TwosComplement { bit_len: u64, v: i64 },
     Length { lb: Option<u64>, ub: Option<u64>, n: u64 },
     Index { choice: bool, std: u64, ext: bool, i: u64 },
@@ -48,6 +50,7 @@ impl Prim {
             Prim::Semi { lb, v } => json!({"kind":"prim","op":"semi","lb":lb.to_string(),"v":v.to_string()}),
             Prim::Unconstrained { v } => json!({"kind":"prim","op":"unconstrained","v":v.to_string()}),
             Prim::NormallySmall { n } => json!({"kind":"prim","op":"normally_small","n":n.to_string()}),
+            Prim::NormallySmallLength { n } => json!({"kind":"prim","op":"normally_small_length","n":n.to_string()}),
             Prim::TwosComplement { bit_len, v } => json!({"kind":"prim","op":"2s","bit_len":bit_len.to_string(),"v":v.to_string()}),
             Prim::Length { lb, ub, n } => json!({"kind":"prim","op":"length","lb":opt_json(*lb),"ub":opt_json(*ub),"n":n.to_string()}),
             Prim::Index { choice, std, ext, i } => json!({"kind":"prim","op":"index","choice":choice,"std":std.to_string(),"ext":ext,"i":i.to_string()}),
@@ -61,6 +64,7 @@ impl Prim {
             "semi" => Prim::Semi { lb: i(&j["lb"]), v: i(&j["v"]) },
             "unconstrained" => Prim::Unconstrained { v: i(&j["v"]) },
             "normally_small" => Prim::NormallySmall { n: u(&j["n"]) },
+            "normally_small_length" => Prim::NormallySmallLength { n: u(&j["n"]) },
             "2s" => Prim::TwosComplement { bit_len: u(&j["bit_len"]), v: i(&j["v"]) },
             "length" => Prim::Length { lb: opt_from(&j["lb"]), ub: opt_from(&j["ub"]), n: u(&j["n"]) },
             "index" => Prim::Index { choice: j["choice"].as_bool().unwrap(), std: u(&j["std"]), ext: j["ext"].as_bool().unwrap(), i: u(&j["i"]) },
@@ -144,6 +148,10 @@ fn expect(p: &Prim) -> Expect {
         Prim::NormallySmall { n } => {
             refper::normally_small(&mut s, *n);
             Expect { quirk: None, bits: Some(s.bits), ret: None, class: if *n < 64 { "lt64".into() } else if *n > i64::MAX as u64 { "gt-i64max".into() } else { "ge64".into() } }
+        }
+        Prim::NormallySmallLength { n } => {
+            refper::normally_small_length(&mut s, *n);
+            Expect { quirk: None, bits: Some(s.bits), ret: None, class: if *n <= 64 { "le64".into() } else { "gt64".into() } }
         }
         Prim::TwosComplement { bit_len, v } => {
             let fits = *bit_len >= 1 && *bit_len <= 64 && (*bit_len == 64 || (*v >= -(1i64 << (bit_len - 1)) && *v <= (1i64 << (bit_len - 1)) - 1));
@@ -259,6 +267,7 @@ fn do_write<W: PackedWrite>(w: &mut W, p: &Prim) -> Result<Option<u64>, String> 
         Prim::Semi { lb, v } => w.write_semi_constrained_whole_number(*lb, *v).map(|_| None),
         Prim::Unconstrained { v } => w.write_unconstrained_whole_number(*v).map(|_| None),
         Prim::NormallySmall { n } => w.write_normally_small_non_negative_whole_number(*n).map(|_| None),
+        Prim::NormallySmallLength { n } => w.write_normally_small_length(*n - 1).map(|_| None),
         Prim::TwosComplement { bit_len, v } => w.write_2s_compliment_binary_integer(*bit_len, *v).map(|_| None),
         Prim::Length { lb, ub, n } => w.write_length_determinant(*lb, *ub, *n),
         Prim::Index { choice: true, std, ext, i } => w.write_choice_index(*std, *ext, *i).map(|_| None),
@@ -277,6 +286,7 @@ fn do_read<R: PackedRead>(r: &mut R, p: &Prim) -> Result<ReadVal, String> {
         Prim::Semi { lb, .. } => r.read_semi_constrained_whole_number(*lb).map(ReadVal::I),
         Prim::Unconstrained { .. } => r.read_unconstrained_whole_number().map(ReadVal::I),
         Prim::NormallySmall { .. } => r.read_normally_small_non_negative_whole_number().map(ReadVal::U),
+        Prim::NormallySmallLength { .. } => r.read_normally_small_length().map(|x| ReadVal::U(x + 1)),
         Prim::TwosComplement { bit_len, .. } => r.read_2s_compliment_binary_integer(*bit_len).map(ReadVal::I),
         Prim::Length { lb, ub, .. } => r.read_length_determinant(*lb, *ub).map(ReadVal::U),
         Prim::Index { choice: true, std, ext, .. } => r.read_choice_index(*std, *ext).map(ReadVal::U),
@@ -291,6 +301,7 @@ fn expected_read(p: &Prim, e: &Expect) -> ReadVal {
     match p {
         Prim::Constrained { v, .. } | Prim::Semi { v, .. } | Prim::Unconstrained { v } | Prim::TwosComplement { v, .. } => ReadVal::I(*v),
         Prim::NormallySmall { n } => ReadVal::U(*n),
+        Prim::NormallySmallLength { n } => ReadVal::U(*n),
         // the reader of a length determinant returns the number of items that follow this header
         Prim::Length { n, .. } => ReadVal::U(e.ret.unwrap_or(*n)),
         Prim::Index { i, .. } => ReadVal::U(*i),
@@ -309,6 +320,7 @@ fn op_name(p: &Prim) -> &'static str {
         Prim::Semi { .. } => "semi",
         Prim::Unconstrained { .. } => "unconstrained",
         Prim::NormallySmall { .. } => "normally_small",
+        Prim::NormallySmallLength { .. } => "normally_small_length",
         Prim::TwosComplement { .. } => "2s_compliment",
         Prim::Length { .. } => "length",
         Prim::Index { choice: true, .. } => "choice_index",
@@ -568,6 +580,10 @@ fn spaces(tier: Tier) -> Vec<Space> {
     }
     for n in boundary_u64() {
         c.push(Prim::NormallySmall { n });
+    }
+    // normally small lengths: every length up to 300 and the boundaries of the length forms below 16K
+    for n in (1..=300u64).chain([16382, 16383]) {
+        c.push(Prim::NormallySmallLength { n });
     }
     for bit_len in 0..=66u64 {
         for &v in &b {
